@@ -1,15 +1,27 @@
 (* Dispatch.v — name -> model runner / spec checker, for the extracted driver *)
 From Coq Require Import String List Ascii ZArith Bool.
-From QH Require Import Bytes Value Range Spec_C16.
+From QH Require Import Bytes Value Range Spec_C16 HeaderMap Parser SocketM SockIO Spec_C01 SockSpec.
 Import ListNotations.
 
 Definition run (fam : bytes) (c : value) : value :=
   if beq fam (B "range") then run_range c
+  else if beq fam (B "reqhead") then run_reqhead c
+  else if beq fam (B "resphead") then run_resphead c
+  else if beq fam (B "tolonglong") then run_tolonglong c
+  else if beq fam (B "bytesprim") then run_bytesprim c
+  else if beq fam (B "split") then run_split c
+  else if beq fam (B "sock") then run_sock c
   else verr.
 
 (* spec checker of property [prop] evaluated on an observation of family [fam] *)
 Definition chk (prop fam : bytes) (c o : value) : bool :=
   if beq prop (B "C16") then chk_C16 c o
+  else if beq prop (B "C01") then chk_C01 fam c o
+  else if beq prop (B "C02") then (if beq fam (B "sock") then chk_C02 c o else true)
+  else if beq prop (B "C03") then (if beq fam (B "sock") then chk_C03 c o else true)
+  else if beq prop (B "C04") then (if beq fam (B "sock") then chk_C04 c o else true)
+  else if beq prop (B "C18") then (if beq fam (B "sock") then chk_C18 c o else true)
+  else if beq prop (B "C19") then (if beq fam (B "sock") then chk_C19_sock c o else true)
   else true.
 
 (* decimal I/O for the driver (arbitrary precision) *)
